@@ -315,6 +315,7 @@ def run(ctx):
   velocity_rows_are_active_rows(ctx)
   ignored_notes_cannot_raise(ctx, 'SKIP/ignored-notes-cannot-raise')
   onset_label_clamp(ctx, ctx.func(SL + ':sequence_to_pianoroll'))
+  delay_reaches_every_mode(ctx, ctx.func(SL + ':sequence_to_pianoroll'))
   encoder(ctx)
   decoder(ctx)
 
@@ -551,6 +552,94 @@ def onset_label_clamp(ctx, fi):
   except (nf.NFError, StopIteration):
     why = 'cannot classify: the clamp %s' % norm_text(st)[:80]
     ctx.ob('WINDOW/onset-length-clamp', fi, st, False, why, construct=cons, unknown=why)
+
+
+def delay_reaches_every_mode(ctx, fi, rule='WINDOW/delay-in-every-mode'):
+  """Location-independent: onset_delay_ms moves the onset label in *every* onset mode ('window' centres the window on the frame of the
+  delayed start, 'length_ms' starts the label there).  A def-use closure per arm of the `onset_mode` dispatch: the bounds of the slice
+  written into `onsets[...]` are followed back through the assignments of the arm (for names the arm assigns) and of the rest of the
+  function (for the others, nested helpers read through their free names); an arm from which onset_delay_ms is not reachable labels the
+  undelayed note."""
+  fn = fi.node
+  cons = 'the onset label depends on onset_delay_ms in every onset mode'
+  if 'onset_delay_ms' not in [a.arg for a in fn.args.args + fn.args.kwonlyargs]:
+    why = 'cannot classify: no parameter onset_delay_ms'
+    ctx.ob(rule, fi, fn, False, why, construct=cons, unknown=why)
+    return
+  # the dispatch: an if-chain on onset_mode
+  arms = []
+  for st in U.walk_stmts(fn, into_nested=False):
+    if isinstance(st, ast.If) and isinstance(st.test, ast.Compare) and isinstance(st.test.left, ast.Name) and st.test.left.id == 'onset_mode' and not arms:
+      cur = st
+      while True:
+        mode = next((c.value for c in ast.walk(cur.test) if isinstance(c, ast.Constant) and isinstance(c.value, str)), None)
+        arms.append((mode, cur.body, cur))
+        if len(cur.orelse) == 1 and isinstance(cur.orelse[0], ast.If) and isinstance(cur.orelse[0].test, ast.Compare) and isinstance(cur.orelse[0].test.left, ast.Name) and cur.orelse[0].test.left.id == 'onset_mode':
+          cur = cur.orelse[0]
+        else:
+          break
+  slices = [t for st in U.walk_stmts(fn, into_nested=False) if isinstance(st, (ast.Assign, ast.AugAssign)) for t in (st.targets if isinstance(st, ast.Assign) else [st.target])
+            if isinstance(t, ast.Subscript) and isinstance(t.value, ast.Name) and t.value.id == 'onsets']
+  if not arms or len(slices) != 1:
+    why = 'cannot classify: no if-chain on onset_mode, or not exactly one store into onsets[...]'
+    ctx.ob(rule, fi, fn, False, why, construct=cons, unknown=why)
+    return
+  start = set(x.id for x in ast.walk(slices[0].slice) if isinstance(x, ast.Name))
+  nested = dict((d.name, d) for d in ast.walk(fn) if isinstance(d, (ast.FunctionDef, ast.Lambda)) and d is not fn and hasattr(d, 'name'))
+  def assigns_in(stmts):
+    out = {}
+    for top in stmts:
+      for x in ast.walk(top):
+        if isinstance(x, (ast.FunctionDef, ast.Lambda)):
+          continue
+        tg, val = [], None
+        if isinstance(x, ast.Assign):
+          tg, val = x.targets, x.value
+        elif isinstance(x, (ast.AugAssign, ast.AnnAssign)) and x.value is not None:
+          tg, val = [x.target], x.value
+        elif isinstance(x, ast.For):
+          tg, val = [x.target], x.iter
+        elif isinstance(x, ast.NamedExpr):
+          tg, val = [x.target], x.value
+        for t in tg:
+          for n in ast.walk(t):
+            if isinstance(n, ast.Name):
+              out.setdefault(n.id, []).append(val)
+    return out
+  all_arm_nodes = set(id(x) for _m, body, _n in arms for b in body for x in ast.walk(b))
+  outside = [st for st in fn.body]
+  glob = {}
+  for name, vals in assigns_in(outside).items():
+    glob[name] = [v for v in vals if id(v) not in all_arm_nodes]
+  def names_of(e):
+    out = set()
+    for x in ast.walk(e):
+      if isinstance(x, ast.Name):
+        out.add(x.id)
+        if x.id in nested:
+          out |= set(y.id for y in ast.walk(nested[x.id]) if isinstance(y, ast.Name))
+    return out
+  for mode, body, node in arms:
+    if body and all(isinstance(b, ast.Raise) for b in body):
+      continue
+    local = assigns_in(body)
+    seen, todo = set(), list(start)
+    while todo:
+      n = todo.pop()
+      if n in seen:
+        continue
+      seen.add(n)
+      for v in (local[n] if n in local else glob.get(n, [])):
+        todo.extend(names_of(v) - seen)
+    assigned_here = start & set(local)
+    if not assigned_here:
+      why = 'cannot classify: the %r arm does not assign the bounds of the onsets slice' % mode
+      ctx.ob(rule, fi, node, False, why, construct=cons + ' (%r)' % mode, unknown=why)
+      continue
+    ok = 'onset_delay_ms' in seen
+    ctx.ob(rule, fi, node, ok, 'onset_delay_ms reaches the bounds of the onsets slice in mode %r' % mode if ok else
+           'in onset mode %r the bounds of the onsets slice (%s) are computed from %s - onset_delay_ms is not among the values they depend on, so a delayed onset label is painted at the '
+           'undelayed start of the note' % (mode, ', '.join(sorted(assigned_here)), ', '.join(sorted(seen - start))[:120]), construct=cons + ' (%r)' % mode, definite=True)
 
 
 def silent_start(ctx, fi):
